@@ -23,7 +23,7 @@ def emit(ctx, tier, classes=None):
     q = tier == "quick"
     consts = {"Bases": "BasesQ" if q else "BasesT", "Eps": "EpsQ" if q else "EpsT",
               "Centres": "CentresQ" if q else "CentresT", "Scales": "ScalesQ" if q else "ScalesT",
-              "CentresE": "CentresQ", "ScalesE": "ScalesQ"}
+              "CentresE": "CentresQ", "ScalesE": "ScalesQ", "BasesE": "BasesQ", "EpsE": "EpsQ" if q else "EpsT"}
     cfg = CFG + "CONSTANTS\n" + "\n".join(f" {k} <- {v}" for k, v in consts.items()) + "\n SeriesN = 60\n"
     cfg += " Classes <- ClassesAll\n" if not classes else " Classes = {" + ", ".join('"%s"' % c for c in classes) + "}\n"
     if not q:
